@@ -40,8 +40,15 @@ Definition socket_out (sz : nat) (cs : list conn) (out : list tagged) : Prop :=
 
 (* a datagram stream has ONE reader for the socket: the datagrams in arrival
    order (tagged with their sender) are its reads *)
+(* Each Read takes ONE datagram; what does not fit the space offered is
+   discarded by the kernel (LineReader.run_dg). *)
 Definition dgram_lines (sz : nat) (arrivals : list tagged) : list bytes :=
-  deliver sz (map snd arrivals).
+  deliver_dg sz (map snd arrivals).
+
+(* what Proofs/LineReaderProofs.deliver_dg_cut shows dgram_lines to be: every
+   datagram cut to the reader's size, the rest framed as one byte stream *)
+Definition dgram_lines_spec (sz : nat) (arrivals : list tagged) : list bytes :=
+  frame (concat (map (fun t => firstn sz (snd t)) arrivals)).
 
 Definition terminated (d : bytes) : Prop := d = [] \/ last d 0%N = NL.
 Definition terminatedb (d : bytes) : bool :=
